@@ -437,6 +437,11 @@ def gen_kinds(rng):
     environment parameters every earlier generator fixed"""
     return dict(
         vkind=rng.choice(VKINDS),                  # what a vertex is: any hashable
+        # what a key / mask is: int, or a signed NumPy scalar / IntEnum member with the same value (keys are often computed with
+        # NumPy: fixed-width scalars overflow where Python ints do not, e.g. in `key << 32`).  NumPy UNSIGNED scalars are outside
+        # the domain: with them the unchanged minimisers raise OverflowError (`~mask` / negative Python ints against uint32 /
+        # uint64 under NumPy 2); keys are documented as ints.
+        keykind=rng.choice(["int"] * 7 + ["np_int64", "np_int64", "intenum"]),
         subclass=rng.random() < 0.3,               # instances of subclasses of rig's Machine / Net / constraints / entries
         coll=rng.randrange(4),                     # tuples / frozensets / OrderedDict / defaultdict where a collection goes
         big=rng.choice([None, None, None, None, 31, 32, 53, 63, 64, 100]),   # SDRAM quantities around 2**big
@@ -647,7 +652,16 @@ def build(prob, reuse=None):
     wbig = (1 << 100) if cfg.get("big_weight") else None
     nets = [Net(V[s], (SinkList if coll == 1 else list)(V[x] for x in k), wbig if (wbig and wt) else wt)
             for s, k, wt, _, _ in prob["nets"]]
-    net_keys = (collections.OrderedDict if coll == 2 else dict)((n, (p[3], p[4])) for n, p in zip(nets, prob["nets"]))
+    kk = cfg.get("keykind", "int")
+    if kk.startswith("np_"):
+        import numpy
+        mkk = getattr(numpy, kk[3:])
+    elif kk == "intenum":
+        import enum
+        mkk = lambda v: enum.IntEnum("K", {"k%d" % v: v})["k%d" % v]
+    else:
+        mkk = int
+    net_keys = (collections.OrderedDict if coll == 2 else dict)((n, (mkk(p[3]), mkk(p[4]))) for n, p in zip(nets, prob["nets"]))
     cs = []
     for v, x, y, l in prob["devices"]:
         cs.append(LocationConstraint(V[v], (x, y)))
@@ -1002,8 +1016,24 @@ def count_nodes(node, seen=None):
     return n
 
 
+OUTSIDE_KEY_SPACE = [0]      # entries of the implementation's tables with a key / mask outside 0 .. 2**32 - 1 (this run)
+
+
 def tables_c04(tables):
-    return {c: c04.from_impl(t) for c, t in tables.items()}
+    """the implementation's tables as plain data.  A router entry is a 32-bit key and a 32-bit mask: an entry whose key or
+    mask lies outside 0 .. 2**32 - 1 cannot be loaded and matches no packet, so it is left out here (counted, tagged) and the
+    delivery oracle then says concretely which packets are no longer delivered.  Never happens on the unchanged tree."""
+    out = {}
+    for c, t in tables.items():
+        es = []
+        for e in c04.from_impl(t):
+            k, m = int(e[1]), int(e[2])
+            if 0 <= k <= M32 and 0 <= m <= M32:
+                es.append([e[0], k, m, e[3]])
+            else:
+                OUTSIDE_KEY_SPACE[0] += 1
+        out[c] = es
+    return out
 
 
 def x_fillings(rng, key, mask, n):
